@@ -4,63 +4,63 @@ import json, os
 HERE = os.path.dirname(os.path.dirname(os.path.abspath(__file__)))
 CHECKS = {
  "C19": ("Coq: on the functions REGENERATED from output.py — ghe_time_convert labels all 8760 hours correctly (lifted exhaustive sweep); hours_to_month equals the calendar conversion for EVERY rational hour count, is monotone, 1/672-Lipschitz and integral at month ends; exact Fraction correspondence with the real code",
-         "theorems are about exact rationals; the float code is compared on this run's points; CSV writers observed on real runs", "6 C19"),
+         "theorems are about exact rationals; the float code is compared on this run's points; CSV writers observed on real runs", "5 C19"),
 }
 CHECKS.update({
  "C01": ("Coq: C01_feasible for every excess oracle / candidate list / cap / policy (search model + solve_root model, leaf expressions regenerated from the source), cost_spec on the regenerated BaseGHE.cost; exact correspondence of the model with the real Bisection1D/2D/ZD code on ~2.4k stub-oracle searches per run; re-simulation of real designs",
-         "premises visible in the theorem: brentq contract, objective agreement at the bracket ends (measured on real runs), no exactly-zero excess; RowWise search not modelled (covered by end-to-end runs only)", "6 C01"),
+         "premises visible in the theorem: brentq contract, objective agreement at the bracket ends (measured on real runs), no exactly-zero excess; the RowWise design search is a hand-written model (Model/RowSearch.v) compared call by call with the real search under stub oracles; returned designs are re-simulated from scratch from the requested inputs", "5 C01"),
  "C02": ("Coq: height bounds, cap, complete unmet-design policy (both directions), only-ValueError theorem, for every oracle; same correspondence; boundary end-to-end runs with both policy values",
-         "brentq returns a point of its bracket (premise); non-degeneracy = admissible upper index and no exactly-zero excess; RowWise covered by end-to-end runs only", "6 C02"),
+         "brentq returns a point of its bracket (premise); non-degeneracy = admissible upper index and no exactly-zero excess; RowWise search model compared call by call; near-square largest-candidate theorem on the regenerated ring count; design-level searches through the real Design classes with a synthetic excess", "5 C02"),
  "C05": ("Coq: bisection loop invariant (adjacent end, every list length <= 2^max_iter with max_iter read from the source), first-feasible and no-larger-than-evaluated theorems for every oracle, solve_root case theorem, ZD selection theorem; same correspondence; root/drilling checked on real designs",
-         "distinct evaluated excess values assumed (C05_ties_refuted shows the lookup-by-value behaviour otherwise); ZD 'smallest count' only under monotone excess", "6 C05"),
+         "distinct evaluated excess values assumed (C05_ties_refuted shows the lookup-by-value behaviour otherwise); ZD 'smallest count' only under monotone excess; call-site wiring regenerated (no design class overrides tol / max_iter); first-feasible checked through the real Design classes on 80-200 candidate lists", "5 C05"),
 })
 CHECKS.update({
  "C06": ("Coq: month-energy theorem for ALL rational monthly data (all peak-day orderings, pulses present or not, explicit degenerate-duration term), horizon theorem by induction over any number of months; the whole 230-line process_month_loads is translated to Gallina on every run and compared, with the hand model, against the real method segment by segment",
-         "theorems exclude the documented 1e-6 clamp of a negative pulse start; float rounding not modelled (exact Fraction stream + float stream with 1e-9 tolerance)", "6 C06"),
+         "theorems exclude the documented 1e-6 clamp of a negative pulse start; float rounding not modelled (exact Fraction stream + float stream with 1e-9 tolerance)", "5 C06"),
  "C07": ("Coq: retention window, pulse presence/sign/length/centre theorems, same-day abutment, no-pulse theorems on the month model; the two-day window of every peak day (day before + peak day, year wrapping) proved on process_two_day_loads REGENERATED from the source for every year of loads and every peak day; same correspondence; magnitudes, days, durations checked on real HybridLoad objects",
-         "the value of a duration (Cullin & Spitler inverse through the short-time response) is recomputed from its definition by the check on real objects, not proved; durations > 48 h for sub-100 W peaks are a listed known finding", "6 C07"),
+         "the value of a duration (Cullin & Spitler inverse through the short-time response) is recomputed from its definition by the check on real objects, not proved; durations > 48 h for sub-100 W peaks are a listed known finding", "5 C07"),
  "C08": ("Coq: calendar helpers regenerated from the source = closed form for every month of a 50-year horizon (complete finite domain), closed form periodic for every month number, every month end a breakpoint (induction over month lists), replication, strict monotonicity under disjoint windows; same correspondence",
-         "single-year load list (the tool's only mode); leap years not modelled (the tool uses 8760-hour years)", "6 C08"),
+         "single load year (what the manager passes): 2019 and the leap year 2020 both proved against their closed forms; a LIST of load years is refuted by a witness (observation, outside the quantifier)", "5 C08"),
 })
 CHECKS.update({
  "C03": ("Coq: spacing/row arithmetic for all rational lot sizes, lattice theorem on coordinates.rectangle REGENERATED from the source, soundness of the field check; every domain generator (rectangular, bi_rectangular, bi_rectangle_nested, zoned_rectangle_domain, bi_rectangle_zoned_nested, square_and_near_square) is translated to Gallina on each run, compared field by field with the real generators on exact inputs, and the proved-sound check is evaluated on the translated generators inside Coq",
-         "the link 'every field produced by the generator loops is such a lattice' is established per input by evaluation in Coq, not by an unbounded theorem; floats compared with 1e-9 m", "6 C03"),
- "C04": ("Coq: iff-characterisation of what remove_cutout keeps for ANY classifier (sound + complete), model of polygonal_land_constraint with an exact decision of the focal-sum tolerance test; exact equality with the real function on random rational polygons",
-         "classifier correctness is C16; focal_lt (exact tolerance test) validated by correspondence, not proved; reorder's sortedness observed, not proved", "6 C04"),
+         "the link 'every field produced by the generator loops is such a lattice' is established per input by evaluation in Coq, not by an unbounded theorem; floats compared with 1e-9 m", "5 C03"),
+ "C04": ("Coq: iff-characterisation of what remove_cutout keeps for ANY classifier (sound + complete); over the whole polygonal_land_constraint model (grid from the regenerated bi_rectangle_nested, both cut-outs, stable re-ordering) every borehole of every candidate field is placed, no placeable grid borehole is dropped, every list is sorted by count; exact equality of the model with the real function on random rational polygons; the same oracle on the design object built through the manager",
+         "classifier correctness is C16; focal_lt (exact tolerance test) validated by correspondence, not proved equivalent to the float test", "5 C04"),
  "C16": ("Coq: per-edge theorem (flip iff crossing strictly right, on-edge iff abscissa equal), loop = crossing-number parity for every vertex list, start-vertex and orientation independence; ~400k exact classifications compared with the real function per run",
-         "the on-edge band is modelled exactly only on inputs whose focal excess is 0 or >= 0.059; Jordan curve theorem not attempted (the property names the crossing number as reference)", "6 C16"),
+         "the on-edge band is modelled exactly only on inputs whose focal excess is 0 or >= 0.059; Jordan curve theorem not attempted (the property names the crossing number as reference)", "5 C16"),
 })
 CHECKS.update({
  "C09": ("Coq: model of _simulate_detailed equals the documented superposition formula for every load sequence / kernel / step; zero-load, linearity, ground-temperature shift, and rejection-raises (Abel summation, explicit side conditions) theorems; per-step correspondence with real GHE objects using the kernel sampled from the real interpolant",
-         "the kernel g is abstract (C10/C11); unit handling (kW->W, hours, per borehole) is observed by evaluating the formula from the raw hybrid/hourly loads; the hourly load sequence (year repeated end to end, cut at the horizon) is proved on the expressions regenerated from GHE.simulate", "6 C09"),
+         "the kernel g is abstract (C10/C11); unit handling (kW->W, hours, per borehole) is observed by evaluating the formula from the raw hybrid/hourly loads; the hourly load sequence (year repeated end to end, cut at the horizon) is proved on the expressions regenerated from GHE.simulate", "5 C09"),
  "C20": ("Coq: equivalence of borehole and system flow specifications, formula and 1/N theorems on retrieve_flow and the two BaseGHE flow lines REGENERATED from the source (and the translator's obligation that both copies of retrieve_flow are identical); correspondence on 1..400 boreholes; paired real simulations",
-         "resistance and temperatures follow by congruence through external code; observed on paired simulations", "6 C20"),
+         "resistance and temperatures follow by congruence through external code; observed on paired simulations", "5 C20"),
 })
 CHECKS.update({
  "C18": ("Coq: decision table of the command-line entry point (exit 0 only if outputs written / valid --validate-only / conversion done; invalid, unsupported option, missing output directory, failed design all non-zero), validation accepts iff all sections valid, upper-casing makes the verdict case-insensitive (for all strings); the real entry point is run as a subprocess on every single-field corruption x flag combination and compared with the model",
-         "jsonschema verdicts and the click framework are inputs of the model, not modelled", "6 C18"),
+         "jsonschema verdicts and the click framework are inputs of the model, not modelled", "5 C18"),
 })
 CHECKS.update({
  "C12": ("Coq: GHE object as a state machine — after ANY operation history ending in a sizing or a simulation the stored temperatures belong to the current height (induction-free fold lemma), sizing returns the requested height, summary counts, log-row formula on the regenerated BaseGHE.cost; the old step function is kept and refuted; random operation sequences on real GHE objects compared with the machine and with fresh objects; summaries of real runs re-simulated",
-         "summary text/JSON writers observed on real runs only", "6 C12"),
+         "summary text/JSON writers observed on real runs only", "5 C12"),
  "C13": ("Coq: a simulation's stored result depends only on (height, method) for every pair of histories; manager configuration depends on the last setters only, find_design is transparent, the nominal borehole height is not a physical input; histories on real GHE objects and seven metamorphic manager histories compared bit for bit (files included)",
-         "the design result function itself is not computed in Coq; 'same object' = same construction height", "6 C13"),
+         "the design result function itself is not computed in Coq; 'same object' = same construction height; the manager model includes the design object (find_design works with the inputs of the last set_design), tied by reuse scenarios on real managers and by the regenerated call-site argument lists", "5 C13"),
 })
 CHECKS.update({
  "C10": ("Coq: for every mesh size and coefficient set and ANY solution of the implicit step — heat conservation (telescoping induction), discrete minimum principle, monotonicity, and by induction over time steps a non-decreasing response that never falls below the initial state; geometric theorems (tiling, fluid thermal mass, layer resistances); the system handed to LAPACK is re-assembled in Coq and the returned vector checked as a certificate",
-         "conductances (logarithms) are data; the 0.5 % fine-mesh clause is computed with an independent solver only", "6 C10"),
+         "conductances (logarithms) are data; the 0.5 % fine-mesh clause is computed with an independent solver only", "5 C10"),
  "C11": ("Coq: joined axis strictly increasing / composition theorem on the reference description, radius-correction identity and additivity on the function REGENERATED from gfunction.py (ln abstract), h_eq identity; combine_sts_lts is translated on every run and compared with the real method; stored-height interpolation, real GHE g-functions, FLS anchor by computation",
-         "two laws of ln are premises; interp1d knot reproduction and the FLS/MIFT tolerances are computed only", "6 C11"),
+         "two laws of ln are premises; interp1d knot reproduction and the FLS/MIFT tolerances are computed only", "5 C11"),
  "C17": ("Coq: over the complete finite domain of 192 configuration shapes, the keys the tool writes (regenerated from to_input()/write_input_file) satisfy required/additionalProperties of its own schemas (regenerated from schemas/*.json) and are exactly what the CLI loader reads (regenerated); real write -> validate -> load -> write round trips compared byte for byte",
-         "value-level validity (types, ranges, enums) and byte idempotence of deg<->rad are observed, not proved", "6 C17"),
+         "value-level validity (types, ranges, enums) and byte idempotence of deg<->rad are observed, not proved", "5 C17"),
 })
 CHECKS.update({
  "C15": ("Coq: on the expressions REGENERATED from equivalent_single_u_tube — fluid and pipe-wall volumes preserved, pipe resistance reproduced (sqrt only through (sqrt y)^2 = y, ln abstract), and the exact conditions under which each conductivity root solve matches or clamps; real to_single() sweeps",
-         "the 0.1 % borehole-resistance clause is decided by computation; it FAILS on the unchanged tree for every multi-pipe geometry (listed known finding, keyed by call site)", "6 C15"),
+         "the 0.1 % borehole-resistance clause is decided by computation; it FAILS on the unchanged tree for every multi-pipe geometry (listed known finding, keyed by call site)", "5 C15"),
 })
 CHECKS.update({
  "C14": ("Coq (partial): the exact-arithmetic core of RowWise — row spacing >= target, thin lots have zero rows (the divisor the code then divides by), distribute's count/ends/spacing, the (floor(W/s)+1)x(floor(H/s)+1) rectangle lattice, the sweep returns the FIRST maximum, convex combinations of inside points are inside; correspondence of the rectangle lattice and the sweep argmax against the real generator",
-         "partial: termination, trigonometry, duplicate removal, no-go and perimeter handling are float/heuristic code that the model does not carry; they are observed on the real generator under a time limit on random convex lots (axes-touching, [-90,90] windows, no-go zones, perimeter ratios)", "6 C14"),
+         "partial: termination, trigonometry, duplicate removal, no-go and perimeter handling are float/heuristic code that the model does not carry; they are observed on the real generator under a time limit on random convex lots (axes-touching, [-90,90] windows, no-go zones, perimeter ratios)", "5 C14"),
 })
 NA = {}
 def main():
